@@ -162,4 +162,31 @@ PROPS["C17"] = {
     "assumptions": TRUSTED + ["unbounded termination is restated as the stated budgets (>= 100x head-room over a size-proportional verifier)", "a parent wall-clock watchdog firing is inconclusive, never a violation"],
 }
 
+PROPS["C13"] = {
+    "level": "exploration",
+    "technique": "runtime metamorphic monitor on the real PublicInput::get_hash: digests of every single-field change, main-page insertion/deletion/duplication/transposition, segment and page-header edits collected into one collision set per seed input; digest model cross-check; recorded Stone proofs: the digest reproduces the prover's first challenges (transcript hook)",
+    "rule": "seeds = honest public inputs of the build + 24 (quick) / 300 (thorough) random ones (0..=600 cells, 0..=12 segments, 0..=4 page headers, random dynamic parameters for the dynamic layout); variants = every scalar leaf +1 (+2 thorough), friendly-layer count (stone6), main-page insertion / duplication / deletion / adjacent transposition / address-value exchange at every position (<= 80 sampled positions per seed in quick), compensating changes, segment / header insertion / deletion / transposition, padding and range-check exchanges; any two different inputs with equal digests violate; a variant is non-trivial when the changed field is in the statement",
+    "legs": [full("pihash", "pihash", q=FULL_SHIPPED, t=FULL_SHIPPED), full("recorded", "recorded", t=FULL_SHIPPED)],
+    "required_counters": ["changed.main_page[*].address", "changed.segments[*].begin_addr", "equal_copies_checked", "recorded_transcripts_equal"],
+    "assumptions": TRUSTED[:1] + ["collision-freeness is observed on the enumerated neighbourhoods, not proved for the hash functions"],
+}
+
+PROPS["C15"] = {
+    "level": "exploration",
+    "technique": "runtime differential monitor: real get_diluted_product vs the naive recurrence over all 2^n_bits diluted values; real get_public_memory_product_ratio vs the naive product formula",
+    "rule": "diluted: all 240 (n_bits 1..=16, spacing 1..=15) pairs (including every layout's (16,4)) x 4 (quick) / 20 (thorough) (z, alpha) pairs including 0, 1, -1; memory: the honest public memories of the build + 200 / 2000 random ones (0..=300 cells with special values, 0..=3 page headers, column sizes from the exact length to 2^30, random padding cell); non-trivial: n_bits >= 2, resp. >= 2 cells",
+    "legs": [full("boundary", "boundary", q=FULL_ONE, t=FULL_SHIPPED)],
+    "required_counters": ["diluted.layout_parameters_16_4", "memory.real_public_memories", "memory.random_public_memories"],
+    "assumptions": TRUSTED[:1] + ["n_bits = 0 is outside the closed form's contract (it would not terminate) and is not claimed"],
+}
+
+PROPS["C16"] = {
+    "level": "exploration",
+    "technique": "runtime algebraic probing of the real eval_composition_polynomial / eval_oods_polynomial of all 7 layouts at random points: linearity in the coefficient vector, decomposition into unit-vector evaluations, non-vanishing of every position, per-term dependence of DEEP terms; stark_commit's DEEP coefficient vector checked against the transcript hook",
+    "rule": "per layout x 2 (quick) / 6 (thorough) random environments (mask values, point, OODS point, interaction elements from a random transcript, honest public input and domain): additivity, homogeneity, f(c) = sum_i c_i f(e_i) over all N_CONSTRAINTS unit vectors, every f(e_i) != 0 (dynamic: with every builtin flag enabled, and every position active in the shipped instance stays active), and for each of the MASK_SIZE+2 DEEP terms: non-zero, depends on oods_values[i] and on no other opening, depends on exactly one column; each probed position is one case",
+    "legs": [full("coeffs", "coeffs", q=[("keccak_160_lsb", "stone5"), ("blake2s_248_lsb", "stone6")], t=FULL_SHIPPED)],
+    "required_counters": ["positions_nonzero.dynamic", "positions_nonzero.recursive", "positions_nonzero.starknet_with_keccak", "stark_commit.coefficient_vectors_checked"],
+    "assumptions": TRUSTED + ["polynomial identities are tested at random points (a non-zero rational function vanishes at a random point with probability ~2^-240)"],
+}
+
 NOT_APPLICABLE = {}
